@@ -234,7 +234,9 @@ def evaluate(kind, shape, k, mode, outcome, s, during=None):
     if polled and polled[0] == "DISCONNECTED":
         polled = polled[1:]          # the initial state is not a change
     it = iter(tr)
-    if not all(any(p == t for t in it) for p in polled):
+    if mode == "none":
+        pass          # no callback registered: nothing to compare the polled states with
+    elif not all(any(p == t for t in it) for p in polled):
         out.append((f"{tag}|status-missed", f"polled state sequence {polled} is not a subsequence of the status trace {tr}", case))
     if tr and tr[-1] != s.final_state:
         out.append((f"{tag}|status-last", f"last status notification {tr[-1]} != final state {s.final_state}", case))
@@ -327,10 +329,10 @@ def _work(ctx: Ctx, item):
 def run(ctx: Ctx):
     if ctx.quick:
         ks = list(range(0, 8)) + [10, 14, 20, 30, 45, 70]
-        modes_for = lambda i: [["plain", "raise", "slow"][i % 3]]
+        modes_for = lambda i: [["plain", "raise", "slow", "none"][i % 4]]
     else:
         ks = list(range(0, 130))
-        modes_for = lambda i: ["plain", "raise", "slow"]
+        modes_for = lambda i: ["plain", "raise", "slow", "none"]
     jobs = []
     for kind in aio.CLIENT_KINDS:
         for i, shape in enumerate(SHAPES):
